@@ -71,6 +71,12 @@ static std::vector<Op<OC>> make_ops(size_t n, size_t nh) {
   add("C:=SC(G,whole)", [=](P &p) { p.c = gen<OC>(p.G, Win{0, n}); }, {{FRESH, C, -1}});
   add("C:=SC(G,(0,2))", [=](P &p) { p.c = gen<OC>(p.G, Win{0, 2}, 2); }, {{FRESH, C, -1}});
   add("C:=SC(H,whole)", [=](P &p) { p.c = gen<OC>(p.Hg, Win{0, nh}); }, {{FRESH, C, -1}});
+  if (n >= 4) {  // the larger grid gets seeds that overlap partially, so that its state space is not isomorphic to the small one
+    add("A:=S1(G,(1,3))", [=](P &p) { p.a = gen<1>(p.G, Win{1, 3}, 2); }, {{FRESH, A, -1}});
+    add("B:=S1(G,(2,4))", [=](P &p) { p.b = gen<1>(p.G, Win{2, 4}); }, {{FRESH, B, -1}});
+    add("C:=SC(G,(1,4))", [=](P &p) { p.c = gen<OC>(p.G, Win{1, 4}); }, {{FRESH, C, -1}});
+    add("U:=Support(G,2,3)", [=](P &p) { p.u = Support<S>(p.G, 2, 3); }, {{FRESH, U, -1}});
+  }
   add("U:=Support(G,0,n)", [=](P &p) { p.u = Support<S>(p.G, 0, n); }, {{FRESH, U, -1}});
   add("U:=Support(G,1,2)", [=](P &p) { p.u = Support<S>(p.G, 1, 2); }, {{FRESH, U, -1}});
   add("U:=createEmpty(H)", [=](P &p) { p.u = Support<S>::createEmpty(p.Hg); }, {{FRESH, U, -1}});
@@ -411,6 +417,7 @@ struct Search {
       visited.insert(state_key(p, pv));
     }
     long level = 0;
+    std::vector<uint8_t> deepest;
     std::set<std::string> shapes[NSLOT];
     while (!frontier.empty() && level < maxlevels && !H.capped) {
       std::atomic<size_t> next{0};
@@ -451,6 +458,7 @@ struct Search {
       for (auto &c : all)
         if (visited.insert(c.key).second) nf.push_back(c.hist);
       std::sort(nf.begin(), nf.end());
+      if (!nf.empty()) deepest = nf[nf.size() / 2];
       frontier.swap(nf);
       level++;
       if (H.args.count("verbose")) fprintf(stderr, "level %ld: frontier %zu visited %zu transitions %ld t=%.1fs\n", level, frontier.size(), visited.size(), transitions, H.elapsed());
@@ -479,6 +487,7 @@ struct Search {
       }
     }
     for (int sidx = 0; sidx < NSLOT; sidx++) H.counters[std::string("shapes_slot_") + "UABC"[sidx] + "_" + tag] = (long)shapes[sidx].size();
+    if (!deepest.empty()) H.samples.push_back("history of a state first reached at depth " + std::to_string(deepest.size()) + ": " + hist_desc(deepest));
     H.samples.push_back(tag + ": " + std::to_string(visited.size()) + " states, " + std::to_string(transitions) + " transitions, " + (fix ? "fixpoint after " : "stopped after ") + std::to_string(level) + " levels");
   }
 
